@@ -16,7 +16,8 @@ type CliReq struct {
 	EOFWithData bool   `json:"eof_with_data,omitempty"`
 	// StartAfter >= 0: the caller starts only after caller StartAfter has returned
 	StartAfter int `json:"start_after"`
-	// Cancel: "" | "any" — Conn.Cancel(ctx) is offered to the scheduler once the request has a stream id
+	// Cancel: "" | "any" — Conn.Cancel(ctx) is offered to the scheduler once the request has a stream id;
+	// "seen-stalled": once the scripted server has seen the request and the link towards it is stalled
 	Cancel string `json:"cancel,omitempty"`
 }
 
